@@ -417,14 +417,17 @@ func diffObs(a, b []string) string {
 
 // replayer executes a recorded script on a fresh node + wallet instance.
 type replayer struct {
-	node     *sim.Node
-	env      *sim.Env
-	ctl      *xdb.Ctl
-	tipAnn   bool
-	log      []string
-	closed   bool
-	lastDone bool           // the user operation of the last step returned success
-	issued   map[string]int // wallet id -> addresses issued by completed operations (C06 re-issue decision)
+	node   *sim.Node
+	env    *sim.Env
+	ctl    *xdb.Ctl
+	tipAnn bool
+	log    []string
+	closed bool
+	// C06: the live restart itself is crashed after this many further commits (0 = not)
+	liveCrashAfter int64
+	liveCrashes    int
+	lastDone       bool           // the user operation of the last step returned success
+	issued         map[string]int // wallet id -> addresses issued by completed operations (C06 re-issue decision)
 }
 
 func newReplayer(t *rapid.T, ctl *xdb.Ctl) *replayer {
